@@ -14,7 +14,7 @@ def tasks(tier):
             if op.startswith('sorted') and n > 3: continue
             T.append(('sx.tasks', 'run_instance', ('sx.protocols', 'list_op', dict(l=l, op=op, n=n), dict(k=k, no_prss=False), f'mpyc.runtime.Runtime.{op}',
                                                    f'l={l}, n={n}; all input orders incl. ties (symbolic); comparisons by the sgn contract')))
-    for n in ((2, 3, 4, 5) if tier == 'quick' else (2, 3, 4, 5, 6, 7)):
+    for n in ((2, 3, 4, 5) if tier == 'quick' else (2, 3, 4, 5, 6)):          # n = 7 with a key: solver unknown at 90 s
         for op in ('min_neg', 'max_neg', 'min_max_neg', 'argmin_neg', 'argmax_neg', 'sorted_neg', 'min_sq', 'max_sq', 'argmax_sq'):
             if op.startswith('sorted') and n > 3: continue
             if op.endswith('_sq') and n > 4: continue
